@@ -229,7 +229,9 @@ def replay_file(prop, prop_id, path, known):
 
 
 def write_replay(prop_id, phase, case, finding, shrunk):
-    d = os.path.join(ROOT, 'replays', prop_id)
+    alt = os.environ.get('VERIF_REPO')
+    base = 'replays' if not alt or os.path.realpath(alt) == '/repo' else 'replays_other_tree'
+    d = os.path.join(ROOT, base, prop_id)
     os.makedirs(d, exist_ok=True)
     name = jhash([finding['signature'], case]) + '.json'
     path = os.path.join(d, name)
